@@ -8,7 +8,7 @@
   LIST MODE (no SET / MULTISET / SetKeys option; Precision allowed): full strength — no hashes are
   involved. SET / MULTISET / SetKeys: `Equals` compares 64-bit hash codes; the statement is partial
   (`equals_set_partial` is NOT yet proved; what IS proved here are the counter-witnesses that make
-  the full statement false on the unchanged tree: known findings KF-C04-alias, KF-C04-negzero).
+  the full statement false on the unchanged tree: known finding KF-C04-alias; the former KF-C04-negzero was repaired).
 -/
 import JdProofs.EqualsList
 
@@ -61,8 +61,8 @@ theorem alias_empty_set_empty_string :
 theorem alias_string_number :
     equals [.set] (.arr .raw [.str "AAAAAAAA"]) (.arr .raw [.num 0x4141414141414141]) = true := by decide +kernel
 
-/-- KF-C04-negzero: `[0]` and `[-0]` are unequal as sets (while `==` on floats makes them equal as lists) -/
-theorem negzero_unequal_as_sets :
-    equals [.set] (.arr .raw [.num 0]) (.arr .raw [.num 0x8000000000000000]) = false := by decide +kernel
+/-- after the repair of D5b (`0` and `-0` hash alike, commit ff3e30d): `[0]` and `[-0]` are Equal as sets too -/
+theorem negzero_equal_as_sets_after_fix :
+    equals [.set] (.arr .raw [.num 0]) (.arr .raw [.num 0x8000000000000000]) = true := by decide +kernel
 
 end Jd.Props.C04
